@@ -359,6 +359,9 @@ def gen_cases(rng, tier, h):
             cases.append(_gen_seq(rng, rng.randint(6, 45)))
         for _ in range(30 if quick else 300):
             cases.append(_gen_mt(rng, 500 if quick else 2000))
+        for _ in range(4 if quick else 40):
+            # simultaneous first acquisitions of an object whose only reference is its creator's
+            cases.append(["new", "acq_race 0 %d" % (4000 if quick else 40000), "ctor_raw b0 0", "dec 0", "dtor b0"])
     else:
         for _ in range(100 if quick else 1500):
             cases.append(_gen_seq(rng, rng.randint(6, 45)))
